@@ -112,6 +112,18 @@ def _append_mut(a, i):
     return a
 
 
+class _PlainStrSub(str):
+    pass
+
+
+_PairNT = _collections.namedtuple('_PairNT', ['v', 'tag'])
+_CLS_FORMS = [
+    (lambda v: 'k%d' % v, lambda v: _PlainStrSub('k%d' % v)),
+    (lambda v: (v, 'x'), lambda v: _PairNT(v, 'x')),
+    (lambda v: v % 2 == 0, lambda v: _np.bool_(v % 2 == 0)),
+]
+
+
 def _term_mark_mut(a):
     a.append(-1)
     return a
@@ -352,6 +364,10 @@ _FUNCS = {
     'divobjt': lambda k: (lambda i: (_PLAIN_OBJECTS[(i // k) % len(_PLAIN_OBJECTS)], 'x')),
     # a str subclass that overrides __eq__ only: Python keeps str's own __ne__, so `a != b` and `not (a == b)` disagree
     'divtag': lambda k: (lambda i: Tag('tag%d' % ((i // k) // 2) if (i // k) % 2 else 'TAG%d' % ((i // k) // 2))),
+    # EQUAL values of DIFFERENT classes inside one run: a plain str next to a str subclass (a parsed field next to the application's
+    # str-mixin Enum), a tuple next to a namedtuple, a bool next to a numpy.bool_ - `!=` says they are the same
+    'kcls': lambda k: (lambda i: _CLS_FORMS[k % 3][i % 2](i % k)),
+    'divcls': lambda k: (lambda i: _CLS_FORMS[k % 3][i % 2](i // k)),       # (one family per predicate: numpy scalars do not compare with tuples)
     'divnan': lambda k: (lambda i: _THE_NAN if (i // k) % 3 == 1 else (i // k)),
     # different keys whose hashes collide: hash(-1) == hash(-2); ints congruent mod 2**61-1 share a hash
     'kneg': lambda k: (lambda i: -1 - (i % k)),
@@ -645,7 +661,7 @@ def out_type(node, t):
     return o
 
 
-INT_FUNCS = {'kapprox', 'kobj', 'sub', 'tonp', 'knp', 'modnp', 'divnp', 'divnpf', 'npgt', 'kcent', 'divcent', 'divbool', 'divnone', 'divnan', 'divobj', 'divobjt', 'divtag', 'add', 'mul', 'mod', 'div', 'neg', 'pair', 'pairmod', 'rep', 'upto', 'opt', 'half', 'tofloat', 'nt', 'even', 'odd',
+INT_FUNCS = {'kapprox', 'kobj', 'sub', 'tonp', 'knp', 'modnp', 'divnp', 'divnpf', 'npgt', 'kcent', 'divcent', 'divbool', 'divnone', 'divnan', 'divobj', 'divobjt', 'divtag', 'divcls', 'kcls', 'add', 'mul', 'mod', 'div', 'neg', 'pair', 'pairmod', 'rep', 'upto', 'opt', 'half', 'tofloat', 'nt', 'even', 'odd',
              'modeq', 'modeqnone', 'modeqstr', 'modne', 'modtruthy', 'kt', 'ks', 'kbig', 'kf', 'kmix', 'kneg', 'kmers', 'ktneg', 'divt', 'divs', 'divbig', 'divhuge', 'divf', 'divpar'}
 NUM_FUNCS = {'gt', 'lt', 'trunc', 'scale10'}
 ANY_FUNCS = {'id', 'digest', 'dgt', 'true', 'false', 'kdig', 'digpar', 'ktype'}
